@@ -12,7 +12,7 @@ CONSTANTS
   InitScopeSets = {{}, {"all"}}
   HiddenChoices = {{}}
   ActScopes = {"all", "p1"}
-  RepKinds = {"ReadOk", "ReadRaise", "ReadInvalid", "AssignInvalid", "Activate", "Deactivate", "Drop", "ReadNested", "AnnounceAt"}
+  RepKinds = {"ReadOk", "ReadRaise", "ReadInvalid", "AssignInvalid", "Activate", "Deactivate", "Drop", "ReadNested"}
   MaxNow = 3
 CONSTRAINT TimeBound
 INVARIANT TypeOK
